@@ -142,8 +142,11 @@ def rand_program(rng):
             elif r < 0.85 and macros and not (body and body[-1]["k"] in ("str", "bqs")):
                 # (never directly after a string literal: known finding D2, decided by PpLex/C06)
                 body.append(rand_use_bt(rng, rng.choice(macros), 1, macros)); prev_plain = False
-            elif r < 0.9:
+            elif r < 0.88:
                 body.append(pp.bt("cont")); prev_plain = False
+            elif r < 0.9 and not (body and body[-1]["k"] in ("str", "bqs")):
+                # a directive inside a body is executed when the expansion is rescanned
+                body.append(pp.bt("undef", "M%d" % rng.randrange(4)) if rng.random() < 0.8 else pp.bt("undefall")); prev_plain = False
             elif r < 0.95 and nform:
                 body.append({"k": "bqs", "n": "", "a": [pp.bt("lit", "q "), pp.bt("id", "f0"), pp.bt("lit", " r")], "g": False}); prev_plain = False; simple0 = True
             else:
